@@ -3,4 +3,4 @@ A = arena_common.pairs()
 PAIRS = [A[k] for k in ("id_suitable", "memid_suitable", "alloc_aligned", "try_alloc_at_id", "manage_os_memory")]
 import seg_common
 S = seg_common.pairs()
-PAIRS += [S[k] for k in ("reclaim_all", "abandoned_collect", "try_reclaim", "attempt_reclaim")]
+PAIRS += [S[k] for k in ("reclaim_all", "abandoned_collect", "try_reclaim", "try_reclaim_k5", "attempt_reclaim")]
